@@ -131,6 +131,22 @@ func solveOne(o *Obligation, idx int, dir string, opts solveOpts) {
 		}
 		return
 	}
+	if o.Soft {
+		// soft obligations (machine-integer overflow) get one short attempt
+		t := 1
+		if opts.agree {
+			t = 5
+		}
+		a, _, dt := runSolver(solvers[0], file, t)
+		o.Answers[solvers[0].name] = a
+		o.Time = dt
+		if a == "unsat" {
+			o.Status, o.Backend = "discharged", solvers[0].name
+		} else {
+			o.Status = "unknown"
+		}
+		return
+	}
 	if o.goal == "true" && !o.Vacuity {
 		o.Status, o.Backend = "discharged", "govc-trivial"
 		return
